@@ -205,8 +205,12 @@ class Statement(object):
         positive_range = True
 
         rel_index = self.code_pkg.additional.int
+        constant = 0
         if self.operand.left.is_address_expression():
             rel_index = self.operand.left.extract_address_index_from_expression()
+            # the displacement is the distance to the label plus the constant written with it; any
+            # other expression gives no bound on the displacement, so the 16-bit form is used
+            constant = self.operand.left.constant_displacement()
 
         range_count = range(this_index, rel_index)
         if rel_index < this_index:
@@ -226,8 +230,15 @@ class Statement(object):
             max_size += self.code_pkg.size + 1
             min_size += self.code_pkg.size + 1
 
+        if constant is None:
+            fits_8_bit = False
+        elif positive_range:
+            fits_8_bit = constant >= -128 and max_size + constant <= 127
+        else:
+            fits_8_bit = constant <= 127 and constant - max_size >= -128
+
         if positive_range:
-            if max_size <= 127:
+            if fits_8_bit:
                 self.code_pkg.size += 1
                 self.code_pkg.max_size = self.code_pkg.size
                 self.pcr_size_hint = 2
@@ -242,7 +253,7 @@ class Statement(object):
                 raw_post_byte |= self.code_pkg.post_byte_choices[1]
                 self.code_pkg.post_byte = NumericValue(raw_post_byte)
         else:
-            if max_size <= 128:
+            if fits_8_bit:
                 self.code_pkg.size += 1
                 self.code_pkg.max_size = self.code_pkg.size
                 self.pcr_size_hint = 2
@@ -315,14 +326,18 @@ class Statement(object):
         if self.code_pkg.additional_needs_resolution:
             if self.operand.is_indexed() and self.operand.left and self.operand.left.is_address_expression():
                 try:
-                    relative_address = self.operand.left.calculate_address_offset(statements).int
+                    target = self.operand.left.calculate_address_offset(statements)
                 except (ValueError, ValueTypeError) as error:
                     raise TranslationError(str(error), self)
+                relative_address = -target.int if target.is_negative() else target.int
             else:
                 relative_address = statements[self.code_pkg.additional.int].code_pkg.address.int
 
             start_address = statements[this_index].code_pkg.address.int
             jump_amount = relative_address - start_address - self.code_pkg.size
+            if self.pcr_size_hint == 4:
+                # addresses wrap modulo 65536: keep the 16-bit displacement in -32768..32767
+                jump_amount = ((jump_amount + 0x8000) % 0x10000) - 0x8000
             self.code_pkg.additional = NumericValue(jump_amount, size_hint=self.pcr_size_hint)
 
 # E N D   O F   F I L E #######################################################
